@@ -172,6 +172,10 @@ func (changes *Changes) checkFiles() error {
 		if err := internal.CheckFilename(file.Filename); err != nil {
 			return err
 		}
+		if file.Filename == filepath.Base(changes.Filename) {
+			/* it has to go last, it can't also go along with the rest */
+			return fmt.Errorf("Refusing to touch '%s': the control file lists itself", file.Filename)
+		}
 	}
 	return nil
 }
